@@ -38,6 +38,9 @@ type c20lsSpec struct {
 	exclFuncs  []string          // functions whose file creations must all be exclusive
 	barrier    []string          // struct types whose fields are handed to goroutines (distinct index + barrier)
 	webRoots   []string          // receiver type whose methods are web handlers
+	webAll     bool              // every exported function is reachable from the web handlers (report, graph)
+	onceStructs map[string]string // struct -> its sync.Once field: every other field is written only inside that Once
+	reserve    []string          // name-reserving functions: their callers must not release or reopen the name
 	rmwExempt  map[string]string // function -> why its snapshot/publish of a guarded variable need not be one region
 }
 
@@ -59,6 +62,7 @@ var c20lsSpecs = []c20lsSpec{
 		},
 		callWrites: map[string]string{"writeSettings": "settingsFile"},
 		exclFuncs:  []string{"newTempFile", "writeSettings"},
+		reserve:    []string{"newTempFile"},
 		rmwExempt: map[string]string{
 			"parseFlags": "start-up: called once from PProf before any fetch goroutine, web server or interactive loop exists",
 		},
@@ -80,6 +84,19 @@ var c20lsSpecs = []c20lsSpec{
 		immutable: map[string][]string{"binrep": {"initTools", "Binutils.SetFastSymbolization", "Binutils.SetTools", "Binutils.update"}},
 		freshArg:  map[string]string{"Binutils.update": "fn"},
 	},
+	{
+		// the default HTTPTransport plug-in: one object serves every parallel fetch of an invocation
+		pkg: "transport", dir: "internal/transport",
+		onceStructs: map[string]string{"transport": "initOnce"},
+		exempt:      map[string]string{"New": "constructor: the object is not yet published"},
+	},
+	{
+		// consumers of the profile behind the web handlers: per-request state only
+		pkg: "report", dir: "internal/report", webAll: true,
+	},
+	{
+		pkg: "graph", dir: "internal/graph", webAll: true,
+	},
 }
 
 type c20lsPkg struct {
@@ -100,6 +117,8 @@ type c20lsPkg struct {
 	guards    map[string]string
 	globalsW  map[string]bool
 	getters   map[string]string    // function -> guarded variable whose value it returns
+	reserveUsers map[string]bool
+	autoG     map[string]string    // package variable -> package mutex under which it was seen (inferred guard)
 	setters   map[string]c20lsSetter // function -> guarded variable it overwrites with a parameter
 }
 
@@ -113,6 +132,7 @@ type c20lsSetter struct {
 type c20lsSnap struct {
 	v     string
 	epoch int
+	alias bool // the local is a pointer/map/slice copied from the guarded variable: writes through it hit shared state
 }
 
 type c20lsFn struct {
@@ -132,6 +152,8 @@ type c20lsFn struct {
 	fresh    map[string]bool
 	epoch    int // number of Lock/Unlock events emitted so far: two points share a region iff equal
 	snap     map[string]c20lsSnap
+	held     map[string]bool // mutexes held at this point of the walk
+	rheld    map[string]bool // ... of which only read-locked
 	readEp   map[string]map[int]bool // guarded variable -> lock epochs of this function in which it was read
 	ngetter  int
 	params   []string
@@ -200,24 +222,24 @@ func (f *c20lsFn) snapOf(e ast.Expr) *c20lsSnap {
 		case *ast.CallExpr:
 			if k := f.calleeKey(t); k != "" {
 				if v, ok := f.p.getters[k]; ok {
-					res = &c20lsSnap{v, -1}
+					res = &c20lsSnap{v, -1, false}
 					return false
 				}
 			}
 		case *ast.SelectorExpr:
 			if v := f.guardedVar(t); v != "" {
-				res = &c20lsSnap{v, f.epoch}
+				res = &c20lsSnap{v, f.epoch, false}
 				return false
 			}
 		case *ast.Ident:
 			if sn, ok := f.snap[t.Name]; ok {
 				if _, local := f.env[t.Name]; local {
-					res = &c20lsSnap{sn.v, sn.epoch}
+					res = &c20lsSnap{sn.v, sn.epoch, sn.alias}
 					return false
 				}
 			}
 			if v := f.guardedVar(t); v != "" {
-				res = &c20lsSnap{v, f.epoch}
+				res = &c20lsSnap{v, f.epoch, false}
 				return false
 			}
 		}
@@ -271,7 +293,7 @@ func c20LoadPkg(root string, spec *c20lsSpec) (*c20lsPkg, error) {
 	p := &c20lsPkg{spec: spec, fset: token.NewFileSet(), ifaces: map[string]bool{}, structs: map[string]*ast.StructType{}, funcs: map[string]*ast.FuncDecl{},
 		byName: map[string][]string{}, pkgVars: map[string]ast.Expr{}, pkgVarVal: map[string]ast.Expr{}, events: map[string][]string{},
 		calls: map[string]int{}, asValue: map[string]bool{}, positions: map[string]string{}, guards: map[string]string{}, globalsW: map[string]bool{},
-		getters: map[string]string{}, setters: map[string]c20lsSetter{}}
+		getters: map[string]string{}, setters: map[string]c20lsSetter{}, autoG: map[string]string{}, reserveUsers: map[string]bool{}}
 	ents, err := os.ReadDir(filepath.Join(root, spec.dir))
 	if err != nil {
 		return nil, err
@@ -326,6 +348,18 @@ func c20LoadPkg(root string, spec *c20lsSpec) (*c20lsPkg, error) {
 	}
 	for k, v := range spec.guardField {
 		p.guards[k] = v
+	}
+	for tn, once := range spec.onceStructs {
+		if st, ok := p.structs[tn]; ok {
+			for _, fl := range st.Fields.List {
+				if strings.HasPrefix(c20RecvTypeName(fl.Type), "sync.") {
+					continue
+				}
+				for _, n := range fl.Names {
+					p.guards[tn+"."+n.Name] = "once:" + tn + "." + once
+				}
+			}
+		}
 	}
 	if spec.autoX {
 		for tn, st := range p.structs {
@@ -505,6 +539,25 @@ func (f *c20lsFn) access(e ast.Expr, write bool) {
 	if c == "" {
 		return
 	}
+	if _, isVar := f.p.pkgVars[c]; isVar {
+		if _, ok := f.p.guards[c]; !ok {
+			// only a variable that is WRITTEN under a package mutex (outside init) gets that mutex as its
+			// inferred guard; tables that are merely read inside somebody's critical section do not
+			if write && f.rootKey() != "init" {
+				for m := range f.held {
+					if _, pkgMu := f.p.pkgVars[m]; pkgMu {
+						f.p.autoG[c] = m
+					}
+				}
+			}
+			if m, ok := f.p.autoG[c]; ok {
+				f.p.guards[c] = m
+			}
+		}
+	}
+	if m, ok := f.p.guards[c]; ok && write && f.rheld[m] {
+		f.bad("write of " + c + " while " + m + " is only read-locked in " + f.key)
+	}
 	isBarrier := strings.HasPrefix(c, "local:")
 	for _, b := range f.p.spec.barrier {
 		if strings.HasPrefix(c, b+".") {
@@ -607,6 +660,10 @@ func (f *c20lsFn) expr(e ast.Expr) {
 	case *ast.FuncLit:
 		f.closure(t, false)
 	case *ast.UnaryExpr:
+		if _, lit := t.X.(*ast.CompositeLit); lit && t.Op == token.AND {
+			f.expr(t.X)
+			return
+		}
 		if t.Op == token.AND {
 			f.access(c20LvalueBase(t.X), true) // address taken: treat as a write
 			f.subexprs(t.X)
@@ -701,7 +758,7 @@ func (f *c20lsFn) sub(kind string, fl *ast.FuncLit, isGo bool) string {
 		}
 	}
 	g := &c20lsFn{p: f.p, key: key, env: env, imports: f.imports, ev: &ev, explicit: map[string]int{}, captured: map[string]bool{},
-		outer: outer, inGo: isGo || f.inGo, loopVars: map[string]bool{}, fresh: map[string]bool{}, snap: map[string]c20lsSnap{}, readEp: map[string]map[int]bool{}}
+		outer: outer, inGo: isGo || f.inGo, loopVars: map[string]bool{}, fresh: map[string]bool{}, snap: map[string]c20lsSnap{}, readEp: map[string]map[int]bool{}, held: map[string]bool{}, rheld: map[string]bool{}}
 	if fl.Type.Params != nil {
 		for _, p := range fl.Type.Params.List {
 			for _, n := range p.Names {
@@ -795,17 +852,21 @@ func (f *c20lsFn) call(c *ast.CallExpr) {
 		case "Lock", "Unlock", "RLock", "RUnlock":
 			if m := f.mutexOf(sel.X); m != "" && len(c.Args) == 0 {
 				switch sel.Sel.Name {
-				case "Lock":
+				case "Lock", "RLock":
+					// a read lock is modelled as the (exclusive) lock for the discipline of READS; a write
+					// of a variable it guards while only read-locked is refused in access()
 					f.emit("GAcq " + c20CoqStr(m))
 					f.explicit[m] = f.depth
-				case "Unlock":
+					f.held[m] = true
+					f.rheld[m] = sel.Sel.Name == "RLock"
+				case "Unlock", "RUnlock":
 					if d, ok := f.explicit[m]; ok && d != f.depth {
 						f.bad("Unlock of " + m + " in a different block than its Lock in " + f.key)
 					}
 					delete(f.explicit, m)
+					delete(f.held, m)
+					delete(f.rheld, m)
 					f.emit("GRel " + c20CoqStr(m))
-				default:
-					f.bad("RWMutex use is not modelled: " + m + " in " + f.key)
 				}
 				return
 			}
@@ -865,6 +926,8 @@ func (f *c20lsFn) call(c *ast.CallExpr) {
 						f.emit("GCreate false")
 					}
 				}
+			case "Remove", "RemoveAll", "Rename":
+				f.emit("GRelease")
 			case "CreateTemp":
 				f.emit("GCreate true")
 			case "Create", "WriteFile":
@@ -891,6 +954,11 @@ func (f *c20lsFn) call(c *ast.CallExpr) {
 			}
 			if v, ok := f.p.spec.callWrites[fn.Name]; ok {
 				f.emit("GWr " + c20CoqStr(v))
+			}
+			for _, rv := range f.p.spec.reserve {
+				if rv == fn.Name {
+					f.p.reserveUsers[f.rootKey()] = true
+				}
 			}
 			f.setterCall(fn.Name, c)
 			f.getterCall(fn.Name)
@@ -1024,7 +1092,27 @@ func (f *c20lsFn) assign(lhs []ast.Expr, rhs []ast.Expr, define bool) {
 		}
 		if id, ok := c20LvalueBase(l).(*ast.Ident); ok && id.Name != "_" {
 			if sn != nil {
-				f.snap[id.Name] = *sn
+				_, isIdent := l.(*ast.Ident)
+				al := false
+				if isIdent {
+					switch te := f.typeOf(r).(type) {
+					case *ast.StarExpr, *ast.MapType:
+						al = true
+					case *ast.ArrayType:
+						al = te.Len == nil
+					}
+					if al {
+						if rid, ok := r.(*ast.Ident); ok {
+							al = f.snap[rid.Name].alias
+						} else {
+							al = f.guardedVar(r) != "" && sn.epoch != -1
+							if _, isCall := r.(*ast.CallExpr); isCall {
+								al = false
+							}
+						}
+					}
+				}
+				f.snap[id.Name] = c20lsSnap{sn.v, sn.epoch, al}
 			} else if _, isIdent := l.(*ast.Ident); isIdent {
 				delete(f.snap, id.Name)
 			}
@@ -1056,6 +1144,22 @@ func (f *c20lsFn) assign(lhs []ast.Expr, rhs []ast.Expr, define bool) {
 		b := c20LvalueBase(l)
 		if id, ok := l.(*ast.Ident); ok {
 			f.fresh[id.Name] = false
+		}
+		root := b // through field selections too: x.f.g = .. writes the object x points to
+		for {
+			if se, ok := root.(*ast.SelectorExpr); ok {
+				root = c20LvalueBase(se.X)
+				continue
+			}
+			break
+		}
+		if id, ok := root.(*ast.Ident); ok && root != l {
+			if _, local := f.env[id.Name]; local {
+				if sn, ok := f.snap[id.Name]; ok && sn.alias {
+					// x := guarded pointer/map/slice; x.f = .. / x[i] = .. / *x = .. writes the SHARED object
+					f.emit("GWr " + c20CoqStr(sn.v))
+				}
+			}
 		}
 		if id, ok := b.(*ast.Ident); ok && f.inGo && f.outer[id.Name] {
 			f.capturedWrite(id.Name)
@@ -1114,7 +1218,7 @@ func (f *c20lsFn) stmt(s ast.Stmt) {
 			}
 		}
 	case *ast.DeferStmt:
-		if sel, ok := t.Call.Fun.(*ast.SelectorExpr); ok && sel.Sel.Name == "Unlock" {
+		if sel, ok := t.Call.Fun.(*ast.SelectorExpr); ok && (sel.Sel.Name == "Unlock" || sel.Sel.Name == "RUnlock") {
 			if m := f.mutexOf(sel.X); m != "" {
 				if f.depth != 1 {
 					f.bad("deferred Unlock of " + m + " below the top level of " + f.key)
@@ -1306,7 +1410,7 @@ func (p *c20lsPkg) scan() {
 			}
 			var ev []string
 			f := &c20lsFn{p: p, key: key, env: env, imports: imports, ev: &ev, explicit: map[string]int{}, captured: map[string]bool{},
-				outer: map[string]bool{}, loopVars: map[string]bool{}, fresh: map[string]bool{}, snap: map[string]c20lsSnap{}, readEp: map[string]map[int]bool{}, params: params}
+				outer: map[string]bool{}, loopVars: map[string]bool{}, fresh: map[string]bool{}, snap: map[string]c20lsSnap{}, readEp: map[string]map[int]bool{}, held: map[string]bool{}, rheld: map[string]bool{}, params: params}
 			f.stmts(fd.Body.List)
 			f.finish()
 			p.events[key] = ev
@@ -1344,12 +1448,12 @@ func c20LockscanMain(args []string) {
 	var sb strings.Builder
 	sb.WriteString("(* GENERATED by `harness lockscan` from /repo's current source on every run; do not edit. *)\n")
 	sb.WriteString("From PV Require Import M_Conc.\nOpen Scope string_scope.\n\n")
-	var funcs, roots, webroots, guards, exempt, excl, barrierFns, info, rmwExempt []string
+	var funcs, roots, webroots, guards, exempt, excl, barrierFns, info, rmwExempt, reserveUsers []string
 	for si := range c20lsSpecs {
 		spec := &c20lsSpecs[si]
 		c20lsCaptured = map[string]map[string][]string{}
 		var p *c20lsPkg
-		getters, setters := map[string]string{}, map[string]c20lsSetter{}
+		getters, setters, autoG := map[string]string{}, map[string]c20lsSetter{}, map[string]string{}
 		for pass := 0; pass < 3; pass++ { // getters/setters found in one pass are used by the next
 			c20lsCaptured = map[string]map[string][]string{}
 			var err error
@@ -1358,7 +1462,7 @@ func c20LockscanMain(args []string) {
 				fmt.Fprintln(os.Stderr, "lockscan:", err)
 				os.Exit(1)
 			}
-			p.getters, p.setters = getters, setters
+			p.getters, p.setters, p.autoG = getters, setters, autoG
 			p.scan()
 		}
 		for k := range spec.exempt {
@@ -1525,6 +1629,9 @@ func c20LockscanMain(args []string) {
 					isWeb = true
 				}
 			}
+			if spec.webAll && ast.IsExported(name) && (!strings.Contains(k, ".") || ast.IsExported(k[:strings.Index(k, ".")]) || true) {
+				isWeb = true
+			}
 			if isWeb {
 				webroots = append(webroots, c20CoqStr(spec.pkg+":"+k))
 			}
@@ -1585,6 +1692,14 @@ func c20LockscanMain(args []string) {
 		}
 		sort.Strings(gs)
 		info = append(info, spec.pkg+" accessors: "+strings.Join(gs, ", "))
+		var ru []string
+		for k := range p.reserveUsers {
+			ru = append(ru, k)
+		}
+		sort.Strings(ru)
+		for _, k := range ru {
+			reserveUsers = append(reserveUsers, c20CoqStr(spec.pkg+":"+k))
+		}
 		for _, e := range spec.exclFuncs {
 			excl = append(excl, c20CoqStr(spec.pkg+":"+e))
 		}
@@ -1607,6 +1722,7 @@ func c20LockscanMain(args []string) {
 	sb.WriteString("Definition gen_exempt : list (string * string) := [\n" + strings.Join(exempt, ";\n") + "\n].\n\n")
 	sb.WriteString("Definition gen_excl_funcs : list string := [" + strings.Join(excl, "; ") + "].\n\n")
 	sb.WriteString("Definition gen_rmw_exempt : list (string * string) := [\n" + strings.Join(rmwExempt, ";\n") + "\n].\n\n")
+	sb.WriteString("Definition gen_reserve_users : list string := [" + strings.Join(reserveUsers, "; ") + "].\n\n")
 	sb.WriteString("Definition gen_barrier_funcs : list string := [" + strings.Join(barrierFns, "; ") + "].\n")
 	if len(args) > 0 {
 		os.WriteFile(args[0], []byte(sb.String()), 0o644)
